@@ -960,6 +960,13 @@ func (e *Exec) execInstr(fr *frame, st *State, instr ssa.Instruction) {
 		ln := toIndex(e.val(fr, st, x.Len), x.Len.Type())
 		cp := toIndex(e.val(fr, st, x.Cap), x.Cap.Type())
 		e.safety(st, "makeslice", smt.And(smt.BVUle(ln, cp), smt.BVUle(cp, cap48)), x.Pos())
+		if e.allocBound != nil && e.spec == 0 && !cp.IsConst() {
+			sz := uint64(stdSizes.Sizeof(et))
+			if sz == 0 {
+				sz = 1
+			}
+			e.safety(st, "alloc", smt.BVUle(smt.BVMul(cp, smt.Const(64, sz)), e.allocBound), x.Pos())
+		}
 		fr.vals[x] = e.makeSlice(st, et, ln, cp)
 	case *ssa.MakeMap:
 		m := e.newObj(st)
@@ -1328,7 +1335,10 @@ func (e *Exec) typeAssert(st *State, x *ssa.TypeAssert, v *smt.Term) *smt.Term {
 	if _, isI := x.AssertedType.Underlying().(*types.Interface); isI {
 		// interface-to-interface: decide statically when the dynamic type is known
 		res = v
+		e.curAssertStaticT = x.X.Type()
+		e.curAssertStatic = x.X.Type().Underlying()
 		ok = e.implements(st, v, x.AssertedType)
+		e.curAssertStatic, e.curAssertStaticT = nil, nil
 	} else {
 		tid := smt.Const(32, uint64(e.W.TypeID(x.AssertedType)))
 		ok = smt.Eq(ITyp(v), tid)
@@ -1344,6 +1354,10 @@ func (e *Exec) typeAssert(st *State, x *ssa.TypeAssert, v *smt.Term) *smt.Term {
 func (e *Exec) implements(st *State, v *smt.Term, it types.Type) *smt.Term {
 	ty := ITyp(v)
 	iface := it.Underlying().(*types.Interface)
+	if st0, ok := e.curAssertStatic.(*types.Interface); ok && st0 != nil && types.Implements(e.curAssertStaticT, iface) {
+		// asserting an interface value to an interface its static type already satisfies: a nil check
+		return smt.Neq(ty, smt.Const(32, 0))
+	}
 	if ty.IsConst() {
 		if ty.Val == 0 {
 			return smt.False
@@ -1460,6 +1474,8 @@ func (e *Exec) zeroAggElems(st *State, arr *smt.Term, et types.Type, n *smt.Term
 	e.inQuant--
 	e.Axiom(smt.Forall([]*smt.Term{i}, smt.Eq(v, e.W.Zero(et))))
 }
+
+var stdSizes = types.SizesFor("gc", "amd64")
 
 func f32bits(f float32) uint32 { return mathFloat32bits(f) }
 func f64bits(f float64) uint64 { return mathFloat64bits(f) }
